@@ -54,6 +54,8 @@ class Runner:
             if isinstance(ex, dict) and 'native' in ex:
                 nat = ex['native']
                 got = norm_native(self.oracle.ask(nat['op'], *nat['args']))
+                if 'project' in nat and got[0] == 'ok' and isinstance(got[1], dict):
+                    got = ['ok', {k.rstrip('~'): (''.join(sorted(got[1].get(k.rstrip('~')) or '')) if k.endswith('~') else got[1].get(k)) for k in nat['project']}]
                 if got == nat['interp']: self.validated += 1
                 else:
                     self.diverged += 1
